@@ -3,6 +3,8 @@ import HsVerif.Model.Quorum
 namespace HsVerif.Drv
 open HsVerif.Model
 
+-- @family "quorum" quorumFam
+-- @family "quorum.oracle" quorumOracle
 def quorumFam : Fam where
   σ := Unit
   init := ()
